@@ -13,6 +13,7 @@ import (
 	"fmt"
 	"strings"
 	"sync"
+	"sync/atomic"
 	"testing"
 	"time"
 
@@ -108,12 +109,12 @@ func (m *monitor) barrier(e *actor.Engine, n int) error {
 // =============================== C01 ====================================================
 
 type DCase struct {
-	Inbox   int   `json:"inbox"`    // initial inbox size
-	Senders int   `json:"senders"`  // goroutines
-	PhaseA  []int `json:"phase_a"`  // messages per sender before the first gate is released
-	PhaseB  []int `json:"phase_b"`  // messages per sender after it
-	Gate1   int   `json:"gate1"`    // the receiver blocks when it has handled this many messages, until phase A is sent
-	Gate2   int   `json:"gate2"`    // and again (Gate1+Gate2), until phase B is sent
+	Inbox   int    `json:"inbox"`     // initial inbox size
+	Senders int    `json:"senders"`   // goroutines
+	PhaseA  []int  `json:"phase_a"`   // messages per sender before the first gate is released
+	PhaseB  []int  `json:"phase_b"`   // messages per sender after it
+	Gate1   int    `json:"gate1"`     // the receiver blocks when it has handled this many messages, until phase A is sent
+	Gate2   int    `json:"gate2"`     // and again (Gate1+Gate2), until phase B is sent
 	Actor   []bool `json:"via_actor"` // sender i sends from inside an actor (Context.Send) instead of a plain goroutine
 }
 
@@ -665,8 +666,8 @@ func TestSpawns(t *testing.T) {
 
 type Req struct {
 	R int    `json:"r"` // responder
-	B string `json:"b"` // reply none late twice
-	T int    `json:"t"` // timeout in ms for none/late
+	B string `json:"b"` // reply none late twice held
+	T int    `json:"t"` // timeout in ms for none/late/held
 }
 
 type RCase struct {
@@ -675,8 +676,9 @@ type RCase struct {
 }
 
 type reqMsg struct {
-	Token int
-	B     string
+	Token   int
+	B       string
+	replied chan struct{}
 }
 type repMsg struct {
 	Token  int
@@ -686,6 +688,8 @@ type fire struct {
 	Token int
 	done  chan struct{}
 }
+
+var collisions atomic.Int64
 
 func runRequests(c RCase) (map[string]int, error) {
 	if c.Responders < 1 || c.Responders > 4 || len(c.Reqs) < 1 || len(c.Reqs) > 32 {
@@ -711,6 +715,10 @@ func runRequests(c RCase) (map[string]int, error) {
 					ctx.Respond(repMsg{Token: m.Token, Second: true})
 				case "late":
 					held[m.Token] = ctx.Sender()
+				case "held":
+					// reply at once; the requester collects it only after more than the timeout
+					ctx.Respond(repMsg{Token: m.Token})
+					close(m.replied)
 				}
 			case fire:
 				if p := held[m.Token]; p != nil {
@@ -740,12 +748,27 @@ func runRequests(c RCase) (map[string]int, error) {
 			if r.B == "none" || r.B == "late" {
 				timeout = time.Duration(r.T) * time.Millisecond
 			}
-			rs := e.Request(resp[r.R], reqMsg{Token: i, B: r.B}, timeout)
+			if r.B == "held" {
+				timeout = time.Duration(r.T) * time.Millisecond
+			}
+			rq := reqMsg{Token: i, B: r.B, replied: make(chan struct{})}
+			rs := e.Request(resp[r.R], rq, timeout)
 			out[i].respID = rs.PID().ID
+			if r.B == "held" {
+				// the reply is in the response's mailbox, well inside the timeout; Result() is called late
+				if err := waitCh(rq.replied, "responder did not reply"); err != nil {
+					out[i].err = err
+					return
+				}
+				time.Sleep(timeout + 15*time.Millisecond)
+			}
 			t0 := time.Now()
 			v, err := rs.Result()
 			el := time.Since(t0)
 			switch {
+			case err != nil && r.B == "held":
+				out[i].err = fmt.Errorf("request %d: the reply arrived before Result() was called (well within the timeout of %v), yet Result() returned the error %v", i, timeout, err)
+				return
 			case err == nil:
 				m, ok := v.(repMsg)
 				if !ok || m.Token != i {
@@ -782,10 +805,17 @@ func runRequests(c RCase) (map[string]int, error) {
 	wg.Wait()
 	// Response ids are 31-bit random numbers from the global math/rand source, which the harness
 	// cannot own: a case in which two requests drew the same id is not judged (see DESIGN.md, C11).
+	// What IS judged is their frequency: with ids drawn from 2^31 values a case of n <= 32 requests
+	// collides with probability < n^2/2^32 = 2.4e-7, so three colliding cases in one process
+	// (< 1e-5 even for 10^6 cases) mean the ids are no longer what the engine documents.
 	seen := map[string]bool{}
 	for _, o := range out {
 		if seen[o.respID] {
 			feat["excluded-response-id-collision"]++
+			if n := collisions.Add(1); n >= 3 {
+				return nil, fmt.Errorf("the response ids of concurrent requests collided in %d cases of this run (a 31-bit random id explains < 2.4e-7 per case): "+
+					"two outstanding requests share the response PID %s, so replies cross over and one requester times out", n, o.respID)
+			}
 			return feat, nil
 		}
 		seen[o.respID] = true
@@ -829,7 +859,7 @@ func genRequests(t *rapid.T) RCase {
 	for i := 0; i < n; i++ {
 		c.Reqs = append(c.Reqs, Req{
 			R: rapid.IntRange(0, c.Responders-1).Draw(t, "r"),
-			B: rapid.SampledFrom([]string{"reply", "reply", "reply", "twice", "none", "late"}).Draw(t, "b"),
+			B: rapid.SampledFrom([]string{"reply", "reply", "reply", "twice", "none", "late", "held"}).Draw(t, "b"),
 			T: rapid.IntRange(5, 40).Draw(t, "t"),
 		})
 	}
@@ -841,7 +871,7 @@ func TestRequests(t *testing.T) {
 	rapid.Check(t, func(t *rapid.T) {
 		c := genRequests(t)
 		check(t, st, c, func() (map[string]int, error) { return runRequests(c) }, func(f map[string]int) bool {
-			return f["concurrent-requests"] > 0 && f["behaviour-reply"]+f["behaviour-twice"] >= 2 && f["behaviour-none"]+f["behaviour-late"] >= 1
+			return f["concurrent-requests"] > 0 && f["behaviour-reply"]+f["behaviour-twice"]+f["behaviour-held"] >= 2 && f["behaviour-none"]+f["behaviour-late"] >= 1
 		})
 	})
 }
@@ -860,5 +890,17 @@ func rep[T any](run func(T) (map[string]int, error)) func(json.RawMessage) error
 func init() {
 	vh.RegisterReplay("TestDelivery", rep(runDelivery))
 	vh.RegisterReplay("TestSpawns", rep(runSpawns))
-	vh.RegisterReplay("TestRequests", rep(runRequests))
+	vh.RegisterReplay("TestRequests", func(raw json.RawMessage) error {
+		// the collision-frequency verdict needs several executions of the case
+		var c RCase
+		if err := json.Unmarshal(raw, &c); err != nil {
+			return err
+		}
+		for i := 0; i < 30; i++ {
+			if _, err := runRequests(c); err != nil {
+				return err
+			}
+		}
+		return nil
+	})
 }
